@@ -143,6 +143,9 @@ def build_matrix_inputs(cache_dir):
     # columns vanish by causality, in front of columns that do not
     early = [e for e in e1 if float(e.time_interval[1]) <= 0.5]
     late_first = sorted(e1, key=lambda e: -float(e.time_interval[0]))
+    # small (inline path) square blocks from two different lists: overlapping and disjoint
+    inputs["i12"] = {"call": lambda mp: SL1.bilform_matrix(e1[:6], e1[3:9], use_mp=mp), "ref": ref(SL1, e1[:6], e1[3:9]), "shape": (6, 6)}
+    inputs["i13"] = {"call": lambda mp: SL3.bilform_matrix(e3[:4], e3[-4:], use_mp=mp), "ref": ref(SL3, e3[:4], e3[-4:]), "shape": (4, 4)}
     inputs["i11"] = {"call": lambda mp: SL1.bilform_matrix(early, late_first, use_mp=mp), "ref": ref(SL1, early, late_first), "shape": (len(early), len(late_first))}
     return inputs
 
@@ -326,6 +329,14 @@ def run(prop, tier, seed):
                                                     {"ev": "return", "in": n, "mp": False, "w": 1}, {"ev": "return", "in": n, "mp": True, "w": 2})]]
         scripts = both_paths + fixed_scripts(names, set(), al.KINDS[:2], workers)[:3] + behaviours(ctx, set(names), set(), workers, True, 3 if quick else 40, 40, seed + 9)
         st, ev = execute(ctx, scripts, mi2, names, set(), True, rng, "matrix-call-forms")
+        runs.append(st)
+        all_events += ev
+        ctx.log("replay %s" % st)
+        names = ["i12", "i13", "i8"]
+        small_sq = {"i12", "i13"}
+        scripts = [[{"ev": "return", "in": n, "mp": mp_, "w": 2} for n in names for mp_ in (False, True)]] + \
+            behaviours(ctx, set(names), small_sq, workers, True, 2 if quick else 20, 30, seed + 11)
+        st, ev = execute(ctx, scripts, mi2, names, small_sq, True, rng, "matrix-small-square-blocks")
         runs.append(st)
         all_events += ev
         ctx.log("replay %s" % st)
